@@ -27,6 +27,16 @@ LEVEL = {
             "s*u (parallel to the direction); the applied root has the smaller magnitude and both are roots; rejected hop is a no-op; event fields. "
             "Run-level event/active-state consistency is checked on the implementation for both trace stores (oracle), its loop theorem is in C16", "7 C04", NOTE,
             "Lean 4 theorems + correspondence with gaps at 1e-13..0.3 relative distance from the threshold"),
+    "C05": ("proof", "Lean theorems. (A) any model, N, dimension: the derivative coupling of the model's basis transformation has zero diagonal, is "
+            "antisymmetric, the off-diagonal force matrix equals (E_i-E_j) d_ij above the gap guard, force = diagonal of the force matrix; first-order "
+            "perturbation theory in Mathlib matrices: if C(x) stays orthonormal and diagonalises V(x) to first order then dE_i = (C^T V' C)_ii "
+            "(Hellmann-Feynman: force = -grad E_i) and <phi_i|phi_j'> = (C^T V' C)_ij/(E_j-E_i) (coupling = overlap derivative). (B) HasDerivAt "
+            "theorems, for all constructor parameters, that each hand-written dV entry is the derivative of the V entry: simple and extended (x != 0), "
+            "dual, super, model X, model S; models W and Z: what dV must be, and counterexample theorems for what the pinned dV returns (KNOWN "
+            "FINDINGS: test_subotnik_model_w/z pin arrays computed from the wrong dV). (C) harmonic force = -grad E for a symmetric Hessian. The Lean "
+            "V/dV entries and the basis transformation are tied to the Python by correspondence; Shin-Metiu, the 5-D vibronic model and Subotnik2D are "
+            "covered by the convergence-checked finite-difference oracle only (stated)", "7 C05", NOTE,
+            "Lean 4 theorems (matrix perturbation algebra, HasDerivAt per model entry) + correspondence + finite-difference oracle"),
     "C07": ("proof", "Lean theorems, exact, any dimension/state count/force field/number of steps: velocity Verlet is time-symmetric; reversing velocities "
             "conjugates the midpoint generator; the code's step matrix equals exp(-i dt W) for ANY unitary eigendecomposition (independent of eigh's "
             "choice); the electronic step with the reversed generator undoes the step on the conjugated state; nuclear+electronic step and whole "
